@@ -63,6 +63,8 @@ type realm struct {
 	// Session meta-procedure registration ID -> handler map.
 	metaProcMap map[wamp.ID]func(*wamp.Invocation) wamp.Message
 	metaDone    chan struct{}
+	// Closed when the meta session's message handler has exited.
+	metaSessDone chan struct{}
 
 	closed    bool
 	closeLock sync.Mutex
@@ -98,21 +100,22 @@ func newRealm(config *RealmConfig, broker *broker, dealer *dealer, logger stdlog
 	}
 
 	r := &realm{
-		broker:      broker,
-		dealer:      dealer,
-		authorizer:  config.Authorizer,
-		clients:     map[wamp.ID]*wamp.Session{},
-		testaments:  map[wamp.ID]testamentBucket{},
-		actionChan:  make(chan func()),
-		stopped:     make(chan struct{}),
-		metaIDGen:   new(wamp.IDGen),
-		metaDone:    make(chan struct{}),
-		metaProcMap: make(map[wamp.ID]func(*wamp.Invocation) wamp.Message, 9),
-		log:         logger,
-		debug:       debug,
-		localAuth:   config.RequireLocalAuth,
-		localAuthz:  config.RequireLocalAuthz,
-		metaStrict:  config.MetaStrict,
+		broker:       broker,
+		dealer:       dealer,
+		authorizer:   config.Authorizer,
+		clients:      map[wamp.ID]*wamp.Session{},
+		testaments:   map[wamp.ID]testamentBucket{},
+		actionChan:   make(chan func()),
+		stopped:      make(chan struct{}),
+		metaIDGen:    new(wamp.IDGen),
+		metaDone:     make(chan struct{}),
+		metaSessDone: make(chan struct{}),
+		metaProcMap:  make(map[wamp.ID]func(*wamp.Invocation) wamp.Message, 9),
+		log:          logger,
+		debug:        debug,
+		localAuth:    config.RequireLocalAuth,
+		localAuthz:   config.RequireLocalAuthz,
+		metaStrict:   config.MetaStrict,
 
 		enableMetaKill:   config.EnableMetaKill,
 		enableMetaModify: config.EnableMetaModify,
@@ -212,6 +215,10 @@ func (r *realm) close() {
 	// finally safe to exit and close the broker.
 	r.metaSess.EndRecv(shutdownGoodbye)
 	<-r.metaDone
+	// Also wait for the meta session's own message handler. It may still be
+	// busy, retrying to deliver the result of a meta procedure to a blocked
+	// caller, and must not find the dealer closed when it tries again.
+	<-r.metaSessDone
 
 	// handleInboundMessages() and metaProcedureHandler() are the only things
 	// than can submit request to the broker and dealer, so now that these are
@@ -290,6 +297,7 @@ func (r *realm) createMetaSession() {
 
 	// Run the handler for messages from the meta session.
 	go func() {
+		defer close(r.metaSessDone)
 		_, _, err := r.handleInboundMessages(r.metaSess)
 		if err != nil {
 			r.log.Println("meta session handler should never return error, got:", err)
